@@ -223,6 +223,9 @@ class Checker:
         spec = r["lines"]
         self.last_wf = (r["wf_unquote"], r["wf_kinds"], r["wf_posonly"], r["wf_alias"], r["wf_stages4"], r["wf_stages6"],
                         r["stage6_eq_tweak"], r["repr_is_dumpNoCtx"], r["wf_tweak"])
+        # hypothesis of C15_dump_injective / C15_hash_iff on the real tree, and the pairwise agreement of "same hashed
+        # text" / sameExpr / sameUpToCtx over its expression nodes
+        self.last_wfd = self.drv.call("c15.wf_dump", tree=ex, cap=300)
         return tree, impl, model, spec
 
     def fails(self, src):
@@ -269,6 +272,36 @@ class Checker:
                 ctx.notes.append("lead: wfTweak fails on a non-adversarial tree: " + src[:300])
         ctx.dist("hypothesis reprsAreDumps (exported hash source = dumpNoCtx of the node) " +
                  ("holds" if self.last_wf[7] else "FAILS") + " on the real tree")
+        wfd = self.last_wfd
+        ctx.dist("hypothesis wfDump (of C15_dump_injective / C15_hash_iff) " + ("holds" if wfd["wf_dump"] else "FAILS") +
+                 " on the real tree")
+        tot = ctx.cov.setdefault("wf_dump", {"holds": 0, "total": 0, "expression_pairs": 0, "pairs_same_text": 0,
+                                             "pairs_text_vs_sameExpr": 0, "pairs_sameExpr_vs_sameUpToCtx": 0})
+        tot["total"] += 1
+        tot["holds"] += 1 if wfd["wf_dump"] else 0
+        tot["conforms_holds"] = tot.get("conforms_holds", 0) + (1 if wfd["conforms"] else 0)
+        ctx.dist("hypothesis conforms (one list of field names per node type, of C15_hash_iff_sameUpToCtx) " +
+                 ("holds" if wfd["conforms"] else "FAILS") + " on the real tree")
+        if not wfd["conforms"]:
+            ctx.broken.append("corr:conforms-on-real-tree")
+            if len(ctx.notes) < 5:
+                ctx.notes.append("two nodes of one type with different field names in a real tree: " + src[:300])
+        tot["expression_pairs"] += wfd["exprs"] * (wfd["exprs"] - 1) // 2
+        for k in ("pairs_same_text", "pairs_text_vs_sameExpr", "pairs_sameExpr_vs_sameUpToCtx"):
+            tot[k] += wfd[k]
+        if not wfd["wf_dump"]:
+            # a real tree outside the hypothesis of the injectivity theorem: a break of the hypothesis
+            ctx.broken.append("corr:wfDump-on-real-tree")
+            if len(ctx.notes) < 5:
+                ctx.notes.append(f"wfDump fails on a real tree, offending name / terminal repr {wfd['witness']!r}: " + src[:300])
+        if wfd["pairs_text_vs_sameExpr"]:
+            ctx.broken.append("corr:same-text-vs-sameExpr")
+            if len(ctx.notes) < 5:
+                ctx.notes.append("two expressions of a real tree: same hashed text but not sameExpr, or conversely: " + src[:300])
+        if wfd["pairs_sameExpr_vs_sameUpToCtx"]:
+            ctx.broken.append("corr:sameExpr-vs-sameUpToCtx")
+            if len(ctx.notes) < 5:
+                ctx.notes.append("two expressions of a real tree on which sameExpr and sameUpToCtx differ: " + src[:300])
         if not self.last_wf[7]:
             ctx.broken.append("corr:dumpNoCtx-vs-exported-repr")
             if len(ctx.notes) < 5:
@@ -450,6 +483,90 @@ def run_passes(ctx, drv, fa):
     return total_bad
 
 
+PAIR_SOURCES = [
+    "f(x)\nf(x, y)\nf(x)(y)\nf\n",  # shared prefixes
+    "{e}\nf'{e}'\n{a: b}\nf'{a: b}'\n{(a, b)}\nf'{a, b}'\n",  # the twins of round 9 (one unparsed text)
+    "\"Name(id='x')\"\nx\n\"Name(id='x', ctx=Load())\"\n'x'\n",  # a string that looks like a dump
+    "'a, b'\n[a, b]\n['a', 'b']\n['a, b']\n[\"a', 'b\"]\n",  # separators inside literals
+    "a[i] = a[i]\nx = x\n(a, b) = (a, b)\n[a, *b] = [a, *b]\na.b = a.b\n",  # load / store copies
+    "'it\\'s\"'\n\"it's\"\n'it\"s'\nb'\\''\n'\\''\n'\\\\'\n'\\\\\\''\nb'\\\\'\n",  # quotes and backslashes
+    "1\n1.0\n1j\n'1'\nb'1'\nTrue\n'True'\nNone\n'None'\n...\n'Ellipsis'\n1e22\n1e999\n1e999j\n-1\n",
+    "lambda x: x\nlambda x, y: x\nlambda x=None: x\nlambda *x: x\n",
+    "x[1:2]\nx[1:2:None]\nx[:2]\nx[1:]\nx[::1]\nx[None:2]\n",  # absent optional fields vs explicit None constants
+    "f(a=1)\nf(**a)\nf(*a)\nf(a)\n",
+    "', ctx=Load()'\n''\n'x, ctx=Store()'\n'x'\n",
+]
+
+
+def flip_ctx(node):
+    """A deep copy in which every Load context is a Store and conversely (not compilable; only dumped)."""
+    import copy
+
+    n = copy.deepcopy(node)
+    for x in ast.walk(n):
+        if isinstance(getattr(x, "ctx", None), ast.Load):
+            x.ctx = ast.Store()
+        elif isinstance(getattr(x, "ctx", None), (ast.Store, ast.Del)):
+            x.ctx = ast.Load()
+    return n
+
+
+def run_pairs(ctx, drv, sources):
+    """The converse of the hash property on real texts, across trees: for pairs of real expression nodes, the model's
+    `sameExpr` / `sameUpToCtx` on the exported nodes against the equality of the strings the real code hashes
+    (`remove_context("", ast.dump(node))`), and `dumpNoCtx` against that string."""
+    rng = ctx.rng
+    exprs = []
+    for src in PAIR_SOURCES + sources[:40]:
+        try:
+            tree = ast.parse(src)
+        except (SyntaxError, ValueError):
+            continue
+        exprs += [n for n in ast.walk(tree) if isinstance(n, ast.expr)][:80]
+    texts = [fe.REMOVE_CONTEXT("", ast.dump(n)) for n in exprs]
+    by_text = {}
+    for i, t in enumerate(texts):
+        by_text.setdefault(t, []).append(i)
+    pairs = []
+    for i, n in enumerate(exprs):  # each expression against its context-flipped copy
+        pairs.append((n, flip_ctx(n), "flip"))
+    same = [v for v in by_text.values() if len(v) > 1]
+    for v in same[:200]:  # same hashed text, different nodes
+        i, j = rng.sample(v, 2)
+        pairs.append((exprs[i], exprs[j], "same-text"))
+    for _ in range(800 if ctx.tier == "quick" else 12000):  # random pairs: mostly different expressions
+        i, j = rng.randrange(len(exprs)), rng.randrange(len(exprs))
+        pairs.append((exprs[i], exprs[j], "random"))
+    n_pair = len([n for n in exprs[:60]])
+    for i in range(n_pair):  # all pairs among the expressions of the hand-written sources
+        for j in range(i + 1, n_pair):
+            pairs.append((exprs[i], exprs[j], "all-pairs"))
+    reqs = [{"op": "c15.same_expr", "a": fe.export(a), "b": fe.export(b)} for a, b, _ in pairs]
+    outs = fe.batch(drv, reqs)
+    bad = 0
+    stats = ctx.cov.setdefault("expr_pairs", {"pairs": 0, "same": 0, "different": 0, "disagreements": 0, "not_wf": 0})
+    for (a, b, kind), o in zip(pairs, outs):
+        ta, tb = fe.REMOVE_CONTEXT("", ast.dump(a)), fe.REMOVE_CONTEXT("", ast.dump(b))
+        real_same = ta == tb
+        stats["pairs"] += 1
+        stats["same" if real_same else "different"] += 1
+        ctx.count("expr-pairs", (ta, tb), nontrivial=real_same != (a is b) or (not real_same and (ta.startswith(tb[:-1]) or tb.startswith(ta[:-1]))))
+        ctx.dist(f"expr-pairs:{kind}:" + ("same hashed text" if real_same else "different hashed texts"))
+        if not (o["wf_a"] and o["wf_b"]):
+            stats["not_wf"] += 1
+            ctx.broken.append("corr:wfDump-on-real-tree")
+        ok = (o["dump_a"] == ta and o["dump_b"] == tb and o["same_expr"] == real_same and o["same_up_to_ctx"] == real_same)
+        if not ok:
+            bad += 1
+            if bad == 1:
+                ctx.notes.append(f"expr-pairs: real texts {ta!r} / {tb!r} (same: {real_same}); model {o!r}")
+                ctx.cov.setdefault("corr_replay", {"pair": [ta, tb], "real_same": real_same, "model": o})
+    stats["disagreements"] += bad
+    if bad:
+        ctx.broken.append("corr:expr-pairs")
+    return bad
+
+
 def run_sequences(ctx, drv, fa, sources):
     """Any sequence of flattenings in one process gives the same text per tree."""
     rng = ctx.rng
@@ -558,6 +675,9 @@ def run(ctx):
         run_sequences(ctx, drv, fa, sources)
         marks["sequences"] = round(ctx.elapsed() - t1, 1)
         t1 = ctx.elapsed()
+        run_pairs(ctx, drv, sources)
+        marks["expr-pairs"] = round(ctx.elapsed() - t1, 1)
+        t1 = ctx.elapsed()
         run_passes(ctx, drv, fa)
         marks["passes"] = round(ctx.elapsed() - t1, 1)
         t1 = ctx.elapsed()
@@ -580,14 +700,24 @@ def run(ctx):
         "C15_path_code / C15_path_nesting (the `_pos` path is a prefix-free code; prefix ⇔ nesting)",
         "C15_hash (same `_hash` ⇔ same context-free repr within one flattening), C15_hash_structural (same expression up "
         "to load/store context ⇒ same `_hash`, for hash sources that are the structural dump dumpNoCtx)",
+        "C15_dump_injective / C15_dump_iff (on wfDump trees the context-free dump text is injective up to the fields it does "
+        "not print: same text ⇔ sameExpr), C15_hash_iff (same `_hash` ⇔ same expression up to load/store context, both "
+        "directions), C15_hash_iff_sameUpToCtx (the same iff with sameUpToCtx, the relation of C15_hash_structural, on trees "
+        "with one list of field names per node type: conforms), C15_hash_converse, C15_sameExpr_of_sameUpToCtx, "
+        "C15_sameUpToCtx_too_fine (without conforms an absent optional field and a None one print the same text)",
         "C15_stateless / C15_sequence / C15_reset_needed (the reset step makes the result independent of the factory state)",
         "C15_tweak_*_partial, C15_tweaks_full, C15_flatten_tweaked (the six passes are tree-level tweaks; composed; on flatten_ast)",
         "C15_escape_at_dump, C15_escapePos_no_pos, C15_escaped_value_not_poslike (escaped terminal values)",
     ]
     ctx.cov["exercised_only"] = [
-        "the converse of C15_hash_structural: two expressions that differ (up to load/store context) get different hashes — "
-        "it needs the injectivity of Python's repr-based dump text (checked by c15.spec: hashes recomputed from a "
-        "length-prefixed canonical form); that the exported hash source is dumpNoCtx of the node is checked on every real tree",
+        "that real trees satisfy the hypotheses of C15_hash_iff: wfDump (type / field names without delimiters, every "
+        "terminal repr a Python string / bytes literal or a delimiter-free token — evaluated by c15.wf_dump on every exported "
+        "tree, holds/total in cov.wf_dump; excluded by the predicate: complex with a real part, tuple / frozenset constants, "
+        "which ast.parse never produces) and reprsAreDumps (the exported hash source is dumpNoCtx of the node)",
+        "that real trees have one list of field names per node type (conforms, hypothesis of C15_hash_iff_sameUpToCtx: "
+        "evaluated on every exported tree with the schema read off the tree; sameExpr and sameUpToCtx are also compared on "
+        "every pair of the first 300 expressions of every exported tree and on the expr-pairs stream against the real "
+        "hashed texts); the length-prefixed canonical-form oracle of c15.spec is kept",
         "ast.parse itself (tree and line numbers are inputs of the model)",
         "nothing about the tweaks themselves any more: C15_stage6_eq_tweak proves the staged tweaks equal the one-shot "
         "`tweak` under wfTweak (the driver still compares them on every tree, and reports wfTweak holds/total)",
